@@ -56,4 +56,17 @@ SEGMENTS = {
         rewrites=[(r"\.write\(\)\.await", ".kwrite()")],
         pre="        self.passed.set(false);",
     ),
+    # ---- allocator steps
+    "A1": dict(
+        file="src/dev/alloc.rs", fn="try_alloc_from_rb_slice", start="FULL",
+        sig="pub(crate) fn seg_a1(&self, rt_e: &RefTableEntry, cls: &HostCluster, count: usize, fixed_start: bool) -> Qcow2Result<Option<(u64, usize)>>",
+        await_calls=["get_refblock"],
+        rewrites=[(r"\.write\(\)\.await", ".kwrite()")],
+    ),
+    "A0": dict(
+        file="src/dev/alloc.rs", fn="free_clusters", start="FULL",
+        sig="pub(crate) fn seg_a0(&self, mut host_cluster: u64, mut count: usize) -> Qcow2Result<()>",
+        await_calls=["get_reftable_entry", "get_refblock"],
+        rewrites=[(r"\.write\(\)\.await", ".kwrite()")],
+    ),
 }
